@@ -23,6 +23,7 @@
 #include <deque>
 #include <forward_list>
 #include <iostream>
+#include <iterator>
 #include <chrono>
 #include <list>
 #include <map>
@@ -50,6 +51,31 @@ template <typename T> T bits(unsigned long long lo, unsigned long long hi = 0)
 {
   T t; unsigned char buf[16]; memcpy(buf, &lo, 8); memcpy(buf + 8, &hi, 8); memcpy(&t, buf, sizeof(T)); return t;
 }
+
+// a user-defined sequence whose iterator dereferences to a type R wider than its value_type T (a proxy/packed container)
+template <typename T, typename R> struct ProxySeq
+{
+  using value_type = T;
+  std::vector<T> v;
+  struct const_iterator
+  {
+    using iterator_category = std::forward_iterator_tag;
+    using value_type = T;
+    using difference_type = std::ptrdiff_t;
+    using pointer = const T*;
+    using reference = R;
+    const T* p = nullptr;
+    R operator*() const { return R(*p); }
+    const_iterator& operator++() { ++p; return *this; }
+    const_iterator operator++(int) { const_iterator r(*this); ++p; return r; }
+    bool operator!=(const const_iterator& o) const { return p != o.p; }
+    bool operator==(const const_iterator& o) const { return p == o.p; }
+  };
+  using iterator = const_iterator;
+  const_iterator begin() const { return const_iterator{v.data()}; }
+  const_iterator end() const { return const_iterator{v.data() + v.size()}; }
+  std::size_t size() const { return v.size(); }
+};
 
 // output stream that refuses to take more than the announced size
 struct Bounded
